@@ -17,14 +17,15 @@ RULE = ("Hypothesis: well-formed notes on 2 channels over 1-3 pitches (abutting 
         "argmin |v-old| over fit; velocity/onset/pitch/channel unchanged; non-note events identical; no overlap. "
         "Non-trivial: >= 2 notes of one key and >= 1 note whose duration is not in the list. Distinct by case digest.")
 ASSUMPTIONS = ["total duration (trailing INTERNAL marker) is not part of the statement"]
-TIERS = {"quick": dict(shards=8, examples=1500), "thorough": dict(size=2, shards=16, examples=25000)}
+TIERS = {"quick": dict(shards=8, examples=1500, alt_ppqn=[480], alt_shards=2),
+         "thorough": dict(size=2, shards=16, examples=25000, alt_ppqn=[480, 7, 1000], alt_shards=4)}
 
 VALUES = [1, 2, 3, 4, 5, 6, 7, 8, 12, 16, 24, 36, 48]
 
 
 @st.composite
 def _case(draw, size=1):
-    pitches = draw(st.sampled_from([(60,), (60, 61), (60, 61, 62)]))
+    pitches = draw(st.sampled_from([(60,), (60, 61), (60, 61, 62), (21, 108), (0, 127)]))
     notes = draw(gens.wellformed_notes(channels=(0, 1), pitches=pitches, max_notes=9 * size, max_len=50, max_gap=30))
     meta = draw(gens.meta_events(max_tick=150, max_events=3, with_noise=True))
     spec = {"notes": notes, "meta": meta}
